@@ -483,6 +483,30 @@ class Model(object):
         hd = self.handle(s)
         return self.expect((0 if hd["released"] else 1,))
 
+    def op_item_rebind(self, s, t, _t):
+        """Fortran: call h(t)%set_instance(h(s)%get_instance()) - h(t) becomes a second view of the
+        object of h(s).  Whatever h(t) referred to before is only forgotten, never released (the
+        generated set_instance clears the destructor index); not generated when h(t) is the only
+        handle of a live caller-owned object, where 'forget' and 'release first' are both defensible."""
+        if self.driver != "f":
+            raise Invalid("fortran only")
+        if s == t:
+            raise Invalid("self")
+        hd = self.handle(s)
+        if hd["released"] or not self.objs[hd["oid"]]["alive"]:
+            raise Invalid("released or dangling handle")
+        old = self.h[t]
+        if old is not None and not old["released"]:
+            o = self.objs[old["oid"]]
+            if o["alive"] and o["owner"] == "caller":
+                others = [x for i, x in enumerate(self.h)
+                          if i != t and x is not None and x["oid"] == old["oid"] and not x["released"]]
+                if not others:
+                    raise Invalid("the only handle of an owned object")
+                self.hit("set_instance_on_an_aliased_owning_handle")
+        self.put(self.h, t, {"oid": hd["oid"], "released": False})
+        return self.expect(())
+
     def op_arr_sum_d(self, n, _b, _t):
         return self.expect((int(sum(0.5 * i for i in range(1, n + 1)) * 2) + 1000 * n,))
 
@@ -948,7 +972,7 @@ def gen_op(rng, model, enabled, uniq):
         return [name, lengths(rng)]
     if name == "bad_arr_sum_d":
         return [name, rng.choice([1, 3, 6]), rng.randrange(12)]
-    if name in ("item_twin", "sum_items", "assign", "item_combine"):
+    if name in ("item_twin", "sum_items", "assign", "item_combine", "item_rebind"):
         return [name, s, t]
     if name in ("str_ref", "str_lib", "arr_lib"):
         return [name]
@@ -1077,6 +1101,7 @@ PY_ONLY = ["box_delete", "bad_vec_sum", "bad_arg", "nomem", "bad_arr_sum", "bad_
 NOT_PY = ["arr_pp", "arr_gref", "str_final", "copy_item", "vec_inc", "vec_str_count", "cap_delete", "cap_scope", "char_inout", "char_grow", "vec_ret_d", "vec_iota_d", "vec_ret_l", "vec_inout_alloc", "pass_item"]
 
 
+F_ONLY = ["item_assoc", "item_rebind"]
 C_ONLY = ["item_release", "box_release", "hi_release", "hd_release", "cstr_ref", "cstr_lib", "cstr_owned", "cstr_in", "cstr_out", "cstr_inout"]
 
 
@@ -1118,7 +1143,7 @@ for _n in ("item_default", "item_val", "item_delete", "item_value", "item_set", 
 for _n in ("bag_new", "bag_total", "bag_delete", "bag_tmp", "bad_bag_new"):
     OP_NEEDS[_n] = ("Bag",)
 OP_NEEDS["rec_sum"] = ("Rec", "recSum")
-OP_NEEDS["item_add_all"] = OP_NEEDS["bad_item_add_all"] = OP_NEEDS["item_assoc"] = ("Item",)
+OP_NEEDS["item_add_all"] = OP_NEEDS["bad_item_add_all"] = OP_NEEDS["item_assoc"] = OP_NEEDS["item_rebind"] = ("Item",)
 OP_NEEDS["arr_sum_d"] = OP_NEEDS["bad_arr_sum_d"] = ("arrSumD",)
 OP_NEEDS["char_arr_two"] = OP_NEEDS["bad_char_arr_two"] = ("charArrTwo",)
 OP_NEEDS["arr_in_out"] = OP_NEEDS["bad_arr_in_out"] = ("arrInOut",)
@@ -1147,7 +1172,7 @@ def ops_for(driver, have=None):
     elif driver == "c":
         ops = list(OPS_COMMON) + C_ONLY
     else:
-        ops = list(OPS_COMMON)
+        ops = list(OPS_COMMON) + F_ONLY
     return [o for o in ops if available(o, have)]
 
 
@@ -1166,7 +1191,7 @@ def targeted_op(rng, m, enabled, uniq):
             cands += [["item_delete", s], ["item_release", s], ["item_value", s], ["item_label", s],
                       ["use_item", s], ["pass_item", s], ["item_add_all", s, lengths(rng)], ["item_assoc", s],
                       ["bad_item_add_all", s, rng.randrange(12)], ["item_twin", s, rng.randrange(NH)],
-                      ["assign", s, rng.randrange(NH)], ["item_combine", s, s], ["sum_items", s, s],
+                      ["assign", s, rng.randrange(NH)], ["item_rebind", s, rng.randrange(NH)], ["item_combine", s, s], ["sum_items", s, s],
                       ["item_set", s, uniq()], ["copy_item", s, uniq()], ["default_item", s], ["ref_item", s]]
     for s, hd in enumerate(m.bx):
         if hd is not None:
